@@ -208,7 +208,7 @@ func harnessC07SelfPublish() {
 	vCover("done")
 }
 
-//verif:entry property=C07 tier=both bounds="a Sequential handler (plain or context-aware) being subscribed by one goroutine while two others publish; every interleaving within the preemption bound; from its first invocation on, never two at a time (race monitor on)" cover="done" preempt_quick=2 preempt_thorough=3 race=on
+//verif:entry property=C07 tier=both bounds="a Sequential handler (plain or context-aware) being subscribed by one goroutine while two others publish (optionally firing and retiring a Once handler meanwhile), then one more event; every interleaving within the preemption bound; from its first invocation on, never two at a time (race monitor on)" cover="done" preempt_quick=2 preempt_thorough=3 race=on
 func harnessC07SubscribeWhilePublishing() {
 	bus := New()
 	var mu sync.Mutex
@@ -226,14 +226,29 @@ func harnessC07SubscribeWhilePublishing() {
 		mu.Unlock()
 	}
 	ctxAware := vBool()
+	late := 0 // invocations for the event published after everything above has returned
+	if vBool() {
+		// a one-shot handler the racing publishes fire (and retire) while the Sequential one is being subscribed
+		vAssert(Subscribe(bus, func(e evA) { vYield() }, Once()) == nil, "subscribe-ok")
+	}
 	var wg sync.WaitGroup
 	wg.Add(3)
 	go func() {
 		defer wg.Done()
 		if ctxAware {
-			vAssert(SubscribeContext(bus, func(hc context.Context, e evA) { body() }, Sequential()) == nil, "subscribe-ok")
+			vAssert(SubscribeContext(bus, func(hc context.Context, e evA) {
+				if e.N == 9 {
+					late++
+				}
+				body()
+			}, Sequential()) == nil, "subscribe-ok")
 		} else {
-			vAssert(Subscribe(bus, func(e evA) { body() }, Sequential()) == nil, "subscribe-ok")
+			vAssert(Subscribe(bus, func(e evA) {
+				if e.N == 9 {
+					late++
+				}
+				body()
+			}, Sequential()) == nil, "subscribe-ok")
 		}
 	}()
 	for g := 0; g < 2; g++ {
@@ -244,6 +259,10 @@ func harnessC07SubscribeWhilePublishing() {
 		}()
 	}
 	wg.Wait()
+	vAssert(maxInside <= 1, "sequential-invocations-never-overlap")
+	// the subscription has returned: a later event reaches the handler exactly once
+	Publish(bus, evA{N: 9})
+	vAssert(late == 1, "each-event-exactly-once")
 	vAssert(maxInside <= 1, "sequential-invocations-never-overlap")
 	vCover("done")
 }
